@@ -7,6 +7,8 @@ expected value: the verdict for every trace line is produced by a TLA+ operator 
 """
 import json
 import multiprocessing as mp
+from concurrent.futures import ProcessPoolExecutor
+from concurrent.futures.process import BrokenProcessPool
 import os
 import shutil
 import tempfile
@@ -85,8 +87,12 @@ def exec_scripts(modname, funcname, scripts, variants, procs=16):
         _exec_init(modname, funcname)
         return [_exec_one(j) for j in jobs]
     ctx = mp.get_context("fork")
-    with ctx.Pool(procs, initializer=_exec_init, initargs=(modname, funcname)) as pool:
-        return pool.map(_exec_one, jobs, chunksize=max(1, len(jobs) // (procs * 8)))
+    # (an executor, not mp.Pool: if a worker process is killed - e.g. by the OOM killer - this raises instead of waiting forever)
+    try:
+        with ProcessPoolExecutor(procs, mp_context=ctx, initializer=_exec_init, initargs=(modname, funcname)) as ex:
+            return list(ex.map(_exec_one, jobs, chunksize=max(1, len(jobs) // (procs * 8))))
+    except BrokenProcessPool as e:
+        raise tlc.TLCError("a worker process executing scripts died: " + str(e))
 
 
 # ------------------------------------------------------------------------------------------------ validation
@@ -155,8 +161,11 @@ def validate_traces(module, cfg, traces, batch_lines=20000, jvms=6, workers_per_
         outs = [_validate_batch(jobs[0])]
     else:
         ctx = mp.get_context("fork")
-        with ctx.Pool(min(jvms, len(jobs))) as pool:
-            outs = pool.map(_validate_batch, jobs, chunksize=1)
+        try:
+            with ProcessPoolExecutor(min(jvms, len(jobs)), mp_context=ctx) as ex:
+                outs = list(ex.map(_validate_batch, jobs, chunksize=1))
+        except BrokenProcessPool as e:
+            raise tlc.TLCError("a worker process running TLC died: " + str(e))
     verdicts = {}
     states = distinct = 0
     for printed, gen, dist, _w in outs:
